@@ -155,7 +155,9 @@ class C57(hc.PProp):
             if kind == 'ROCKWALK' and rest[1] == 'entry':
                 o.stats['entries_walked'] += 1
                 if rest[-1] != 'ok':
-                    o.violations.append(Violation('C57:readable-entry-%s' % rest[-1], 'after %s: index entry %s (walk %s) has %s slices, payload sum %s, entry size %s: %s' % (tag, rest[3], rest[0], rest[4], rest[5], rest[6], rest[-1])))
+                    ncross = sum(1 for d in plan.get('damage', []) if d.get('kind') == 'crosslink')
+                    suffix = ':multi-crosslink' if ncross >= 2 else ''     # several chains cross-linked at once: see known_findings.json
+                    o.violations.append(Violation('C57:readable-entry-%s%s' % (rest[-1], suffix), 'after %s: index entry %s (walk %s) has %s slices, payload sum %s, entry size %s: %s' % (tag, rest[3], rest[0], rest[4], rest[5], rest[6], rest[-1])))
         recs2, sent2 = cf.analyse(h2, p2)
         for r in recs2:
             m = r.resp
